@@ -189,6 +189,7 @@ def run_shard(spec, res):
         res.count('yield_injection_line_events', counter[0])
     else:
         run_proc(spec, res)
+        run_proc_two(spec, res)
 
 
 def run_proc(spec, res):
@@ -237,6 +238,44 @@ def run_proc(spec, res):
                 elif first['extra'][0] != name or f"'fn', {pos}" not in first['extra'][1]:
                     res.violation('other-exception-surfaced', case,
                                   {'got': first['extra']}, sig=sig)
+
+
+def run_proc_two(spec, res):
+    """Two iterations of one process-pool stage alive and advanced in turns:
+    the error that the first one surfaces is not the end (nor a hang) of the
+    second one, which has tasks in flight at that moment."""
+    from .. import procpool as pp
+    be = spec['backend']
+    n = 7
+    for entry in ('pft', 'parmap'):
+        for pos, kind in ((5, 'value'), (3, 'user')):
+            sc = {'entry': entry, 'n': n, 'b': 3, 'w': 2, 'backend': be,
+                  'delays': [0.1, 0.0, 0.05], 'faults': {str(pos): kind},
+                  'catch': 'none', 'two_iterators_interleaved': True}
+            r = pp.run_case(sc, timeout=60)
+            case = {'scenario': sc}
+            sig = {'entry': entry, 'backend': be, 'harness': 'process-pool',
+                   'catch': 'none', 'iterators': 2}
+            if r.get('timeout'):
+                res.violation('hang-on-error', case, None, sig=sig)
+                continue
+            if r.get('crash'):
+                res.inconclusive_because(f'process-pool case crashed: {str(r)[:300]}')
+                continue
+            res.count('process_pool_executions')
+            res.count('process_pool_two_iterator_checks')
+            res.case(('proc-two', be, entry, pos, kind), True)
+            want = [('f', i) for i in range(pos)]
+            name = {'value': 'ValueError', 'user': 'UserExc'}[kind]
+            for which in ('first', 'second'):
+                o = r[which]
+                if o['outcome'] != 'raised':
+                    res.violation('error-swallowed', case, {which: o}, sig=sig)
+                elif pp.delivered(o) != want:
+                    res.violation('wrong-prefix-before-error', case,
+                                  {which: o, 'want': want}, sig=sig)
+                elif o['extra'][0] != name or f"'fn', {pos}" not in o['extra'][1]:
+                    res.violation('other-exception-surfaced', case, {which: o}, sig=sig)
 
 
 def finalize(res, tier):
